@@ -38,7 +38,7 @@ func init() {
 			}
 			return 16
 		},
-		Rule: "each case = one real service stack (6 EOAs: rich, about k transactions' worth, empty; step price 0/1/12500000000; threshold 1-3 ms) + real TransactionPool + TXIDManager on the transitions' locator manager, and 3 proposal rounds. Round: offer 5-60 signed v3 transactions to the pool (timestamps on and around both window edges of the block to propose, runs of transactions of one sender that exhaust its balance at a random position, value sent to an empty account that spends it later in the same list, transactions already included in a finalized block, duplicates offered twice, step limits below the minimum, count/byte limits), call Candidate(wc of the parent state), judge the returned list with an independent ledger (window predicate, finalized-id set, no id twice, stepLimit >= default+input steps, balance >= stepLimit*price+value with the cumulative effect of the transactions before it) and differentially: service.NewTransition(parent, list, validated=false) must validate. The block is then executed and finalized and the next round starts with the pool as it is. Non-trivial = distinct round whose offered set contained at least one transaction the candidate list must not contain for each of two or more different reasons and whose returned list was not empty.",
+		Rule: "each case = one real service stack (6 EOAs: rich, about k transactions' worth, empty; step price 0/1/12500000000; threshold 1-3 ms) + real TransactionPool + TXIDManager on the transitions' locator manager, and 3 proposal rounds. Round: offer 5-60 signed v3 transactions to the pool (timestamps on and around both window edges of the block to propose, runs of transactions of one sender that exhaust its balance at a random position, value sent to an empty account that spends it later in the same list, transactions already included in a finalized block, duplicates offered twice, step limits below the minimum, count/byte limits; in half of the first rounds a directed shape: fillers, then a large message transaction funding an empty account B, then a small transaction of B payable only from that funding, with Candidate's byte or count budget ending at the large one), call Candidate(wc of the parent state), judge the returned list with an independent ledger (window predicate, finalized-id set, no id twice, stepLimit >= default+input steps, balance >= stepLimit*price+value with the cumulative effect of the transactions before it) and differentially: service.NewTransition(parent, list, validated=false) must validate. The block is then executed and finalized and the next round starts with the pool as it is. Non-trivial = distinct round whose offered set contained at least one transaction the candidate list must not contain for each of two or more different reasons and whose returned list was not empty.",
 		MinNonTrivial: func(t string) int {
 			if t == ev.Thorough {
 				return 5000
@@ -46,7 +46,8 @@ func init() {
 			return 120
 		},
 		Required: []string{"rounds", "candidates_selected", "offered_outside_window", "offered_at_eq-max", "offered_at_eq-min", "offered_committed",
-			"offered_exhausting", "offered_below_min_step", "offered_spend_received", "selected_spend_received", "revalidated_ok", "limit_count_hit", "limit_bytes_hit", "offered_duplicate_add"},
+			"offered_exhausting", "offered_below_min_step", "offered_spend_received", "selected_spend_received", "revalidated_ok", "limit_count_hit", "limit_bytes_hit", "offered_duplicate_add",
+			"directed_budget_shape_bytes", "directed_budget_shape_count", "directed_big_left_out"},
 		Assumptions: []string{
 			"the proposer's parent block is finalized when it proposes (consensus order), so 'included before' = finalized ids; Candidate is asked with the parent's result state",
 			"completeness (that every valid transaction is selected) is not part of the statement and not judged",
@@ -304,6 +305,54 @@ func (e *env) round(c *ev.Ctx, r *rand.Rand, parent *feefix.Block, bts int64, ro
 		}
 	}
 	r.Shuffle(len(offered), func(i, j int) { offered[i], offered[j] = offered[j], offered[i] })
+
+	// Directed shape (fresh pool only, so that the order in the pool is known):
+	// fillers of the rich sender, then a LARGE message transaction carrying
+	// value v to an account B that owns nothing, then a small transaction of
+	// B that can only be paid from v. The byte (or count) budget of Candidate
+	// ends right before / at the large one. Whatever Candidate does with the
+	// budget, B's transaction may only be selected together with its funding.
+	dirBytes, dirCount := 0, 0
+	if round == 0 && r.Intn(2) == 0 {
+		bi := 4 + r.Intn(2)
+		if balOf(e.st.Wallets[bi].Address()).Sign() == 0 {
+			var group []*otx
+			nf := 1 + r.Intn(4)
+			fill := 0
+			for i := 0; i < nf; i++ {
+				o := e.mk(r, 0, e.st.Wallets[1].Address(), big.NewInt(int64(r.Intn(50))), nil, bts-e.th+1+int64(i), -1, "budget-filler")
+				fill += len(o.tx.Bytes())
+				group = append(group, o)
+			}
+			v := new(big.Int).Mul(big.NewInt(e.defCost*3), e.price)
+			v.Add(v, big.NewInt(1000))
+			bigTx := e.mk(r, 0, e.st.Wallets[bi].Address(), v, nil, bts, 400+r.Intn(1200), "budget-big-funds-B")
+			small := e.mk(r, bi, e.st.Wallets[0].Address(), big.NewInt(int64(r.Intn(900))), big.NewInt(e.defCost), bts+1, -1, "budget-small-from-B")
+			group = append(group, bigTx, small)
+			bigN, smallN := len(bigTx.tx.Bytes()), len(small.tx.Bytes())
+			if r.Intn(3) == 0 {
+				dirCount = nf + r.Intn(2) // ends before, or with, the large one
+			} else {
+				// fillers and B's transaction fit, the large one does not
+				dirBytes = fill + smallN + r.Intn(bigN-smallN)
+			}
+			// keep the order of the group; the rest must not get in front of it
+			var rest []*otx
+			for _, o := range offered {
+				if o.from != 0 && o.from != bi && o.tag != "committed" {
+					rest = append(rest, o)
+				}
+			}
+			offered = append(group, rest...)
+			reasons["byte-budget"], reasons["balance"] = true, true
+			c.Count("directed_budget_shape", 1)
+			if dirBytes > 0 {
+				c.Count("directed_budget_shape_bytes", 1)
+			} else {
+				c.Count("directed_budget_shape_count", 1)
+			}
+		}
+	}
 	wo := make([]wtx, len(offered))
 	for i, o := range offered {
 		wo[i] = o.w(e, true)
@@ -327,6 +376,9 @@ func (e *env) round(c *ev.Ctx, r *rand.Rand, parent *feefix.Block, bts int64, ro
 		maxCount = 1 + r.Intn(10)
 	case 1:
 		maxBytes = 300 + r.Intn(3000)
+	}
+	if dirBytes > 0 || dirCount > 0 {
+		maxBytes, maxCount = dirBytes, dirCount
 	}
 	wsm, err := state.WorldStateFromSnapshot(ws)
 	if err != nil {
@@ -402,6 +454,17 @@ func (e *env) round(c *ev.Ctx, r *rand.Rand, parent *feefix.Block, bts int64, ro
 		tb.Add(tb, o.value)
 		if o.tag == "spend-received" {
 			c.Count("selected_spend_received", 1)
+		}
+	}
+	if dirBytes > 0 || dirCount > 0 {
+		hasBig := false
+		for _, w := range sel {
+			if w.Tag == "budget-big-funds-B" {
+				hasBig = true
+			}
+		}
+		if !hasBig {
+			c.Count("directed_big_left_out", 1)
 		}
 	}
 	if maxCount > 0 && len(txs) == maxCount {
